@@ -214,6 +214,9 @@ def roundtrip_jigg(st, lang, batch, scratch):
                 st.count('normalized_names')
                 if not v.startswith('_') or any(ch in v for ch in '.,()!-'):
                     _bad(st, 'ccg2lambda', lang, t, ws, 'token_name', f'token {attr} {tk.get(attr)!r} is not an identifier free of logic punctuation')
+                elif v in ('_&', '&'):
+                    # the lone conjunction sign is the one use of & the normaliser names (inside a word it is left alone, here and upstream)
+                    _bad(st, 'ccg2lambda', lang, t, ws, 'token_name', f'the token & is normalised to {v!r}, which still is the conjunction sign of the logic')
 
 
 def template_vocabulary(lang):
